@@ -124,12 +124,12 @@ namespace
           c.count("required_abort_operations");
           if(st == SIGABRT) continue;
           if(st == 0) { c.fail(key + " no-abort", "incomplete output pattern with allow_incomplete=false: the operation returned instead of aborting (silently wrong values)"); return; }
-          if(ef) { c.count("entry_free_operand_crashes"); fail_throttled(c, efkey, "operation died with signal " + std::to_string(st) + " instead of the required abort (null row pointer of the entry-free representation)"); return; }
+          if(ef) { c.count("entry_free_operand_crashes"); fail_throttled(c, efkey, "operation died with signal " + std::to_string(st) + " instead of the required abort (the entry-free representation has no arrays)"); return; }
           c.fail(key + " wrong-death", "expected SIGABRT, got signal " + std::to_string(st)); return;
         }
         if(st != 0)
         {
-          if(ef) { c.count("entry_free_operand_crashes"); fail_throttled(c, efkey, "operation died with signal " + std::to_string(st) + " (null row pointer of the entry-free representation is dereferenced)"); return; }
+          if(ef) { c.count("entry_free_operand_crashes"); fail_throttled(c, efkey, "operation died with signal " + std::to_string(st) + " (the entry-free representation has no arrays: null row pointer dereferenced or val() throws)"); return; }
           c.fail(key + (st == SIGABRT ? " spurious-abort" : " crash"), "operation died with signal " + std::to_string(st) + " although the output pattern is " + (complete ? "complete" : "allowed to be incomplete")); return;
         }
         if(ef) c.count("entry_free_operand_handled_correctly");
